@@ -23,6 +23,23 @@ CLAIMED = {
              "finding F-C04-a (playfield count goes negative transiently). Bounded: <= 2 waiting futures in "
              "_set_ball_count and its callers. Trusted: asyncio primitives, event posting, the rely at awaits.",
         ref="4.C04"),
+    "C05": dict(
+        text="PARTIAL (safety fragment of the eject machinery, outgoing_balls_handler.py). _ejecting, the eject loop, "
+             "with a loop invariant over the attempt counter, for all requests and outcomes of the awaited futures: "
+             "every pass makes at most one physical attempt and only after the eject_attempt queue event and the "
+             "target's readiness gate; a failed attempt is followed by exactly one ball_eject_failed report with the "
+             "new number of attempts - retry=True and another pass, or, iff max_tries is set and reached, retry=False, "
+             "state eject_broken, balldevice_<n>_broken and the loop returns False (the device reports itself broken "
+             "rather than hanging); True only after a successful attempt, a cancel or a confirmed skip. "
+             "_handle_late_confirm_or_missing: the full outcome table after a missed confirmation (late confirm => "
+             "success; ball returned / unknown ball => did_not_arrive, retry; timeout => did_not_arrive, failed "
+             "report, lost_ejected_ball), the incoming ball at the target resolved at most once. _handle_confirm and "
+             "the event words of _prepare_eject, _failed_eject, _post_ejecting_event, _handle_eject_success.",
+        note="NOT decided: liveness ('eventually delivered', 'returns to idle', 'no queued request that could still be "
+             "served') - outside this family. _eject_ball, _skipping_ball and _handle_playfield_timeout_confirm are "
+             "ASSUMED (opaque results); BallDevice's request queue, the incoming balls handler, the ejectors, ball "
+             "save and multiball are not under contract. Trusted: asyncio future / Util.first model, event posting.",
+        ref="4.C05"),
     "C06": dict(
         text="Every lifecycle coroutine of modes/game/code/game.py is verified against the fixed word of events it "
              "must post, with the right kinds (plain / queue / relay) and the right player, player number, ball number "
